@@ -29,6 +29,9 @@ var (
 	Cur     *Thread
 	toSched chan Event
 	Log     []Event
+	// NoPreempt > 0: lock acquisitions do not yield. Only used around reads that can never block
+	// (file locks are innermost, and a parked goroutine never holds one).
+	NoPreempt int
 )
 
 // Reset prepares a new controlled execution.
@@ -75,6 +78,11 @@ func Lock(site, class, mode string, lock func(), try func() bool) {
 		lock()
 		return
 	}
+	if NoPreempt > 0 {
+		lock()
+		Log = append(Log, Event{Thread: Cur.ID, Kind: "acq", Site: site, Class: class, Mode: mode + "a"})
+		return
+	}
 	for {
 		Yield(Event{Kind: "want", Site: site, Class: class, Mode: mode})
 		if try() {
@@ -87,6 +95,11 @@ func Lock(site, class, mode string, lock func(), try func() bool) {
 
 func Unlock(site, class, mode string, unlock func()) {
 	if !Active || Cur == nil {
+		unlock()
+		return
+	}
+	if NoPreempt > 0 {
+		Log = append(Log, Event{Thread: Cur.ID, Kind: "rel", Site: site, Class: class, Mode: mode + "a"})
 		unlock()
 		return
 	}
